@@ -52,6 +52,9 @@ pub enum ExtR {
     Coeffs(Vec<FeR>, u16),
     /// a power of the generator w (Fq12) / v (Fq6)
     GenPow(u16),
+    /// frob^d(e) / e for the inner element e (1 when e = 0): an element whose NORM to the subfield of degree d is
+    /// one (d = 6 in Fq12: the unitary elements c0^2 - v c1^2 = 1, among them all pairing values)
+    NormOne(Box<ExtR>, u8),
 }
 
 fn mask_strategy(ncoef: usize) -> BoxedStrategy<u16> {
@@ -81,12 +84,19 @@ fn mask_strategy(ncoef: usize) -> BoxedStrategy<u16> {
 }
 
 pub fn ext_strategy(ncoef: usize) -> BoxedStrategy<ExtR> {
+    let plain = move || {
+        prop_oneof![
+            2 => (0u16..40).prop_map(ExtR::GenPow),
+            8 => (proptest::collection::vec(fq_strategy(), ncoef), mask_strategy(ncoef)).prop_map(|(c, m)| ExtR::Coeffs(c, m)),
+            8 => (proptest::collection::vec(fq_uniformish(), ncoef), mask_strategy(ncoef)).prop_map(|(c, m)| ExtR::Coeffs(c, m)),
+        ]
+    };
+    let degs: Vec<u8> = if ncoef == 12 { vec![6, 6, 6, 1, 2, 3, 4] } else { vec![1, 2, 3] };
     prop_oneof![
         1 => Just(ExtR::Zero),
         1 => Just(ExtR::One),
-        2 => (0u16..40).prop_map(ExtR::GenPow),
-        8 => (proptest::collection::vec(fq_strategy(), ncoef), mask_strategy(ncoef)).prop_map(|(c, m)| ExtR::Coeffs(c, m)),
-        8 => (proptest::collection::vec(fq_uniformish(), ncoef), mask_strategy(ncoef)).prop_map(|(c, m)| ExtR::Coeffs(c, m)),
+        16 => plain(),
+        3 => (plain(), proptest::sample::select(degs)).prop_map(|(e, d)| ExtR::NormOne(Box::new(e), d)),
     ]
     .boxed()
 }
@@ -102,6 +112,14 @@ impl ExtR {
             ExtR::GenPow(k) => {
                 let g = if ncoef == 12 { Fq12::w() } else { Fq12::w().sqr() };
                 return g.pow(&Z::from(*k as u32)).to_tower();
+            }
+            ExtR::NormOne(inner, d) => {
+                let e = Fq12::from_tower(&inner.tower(ncoef));
+                if e.is_zero() {
+                    t[0][0] = Fq2::one();
+                } else {
+                    return e.frobenius(*d as usize).mul(&e.inv().unwrap()).to_tower();
+                }
             }
             ExtR::Coeffs(c, mask) => {
                 for idx in 0..ncoef {
@@ -125,6 +143,7 @@ impl ExtR {
             ExtR::Zero => "zero".into(),
             ExtR::One => "one".into(),
             ExtR::GenPow(_) => "generator-power".into(),
+            ExtR::NormOne(_, d) => format!("norm-one-over-degree-{}-subfield", d),
             ExtR::Coeffs(_, m) => {
                 let all: u16 = if ncoef == 12 { 0x0fff } else { 0x003f };
                 if *m == all {
